@@ -43,13 +43,17 @@ def classify_sites(sites, allow):
     used = set()
     out = []
     for s in sites:
-        cls = {"fresh": "Fresh", "startup": "Startup", "env": "EnvStore", "receiver": "Receiver"}.get(s["class"])
+        # "parameter": the write goes through a parameter of an unexported function that is only ever called by name; like a
+        # method's receiver, every call site is listed as a write site of its own (with the argument as destination)
+        cls = {"fresh": "Fresh", "startup": "Startup", "env": "EnvStore", "receiver": "Receiver", "parameter": "Receiver"}.get(s["class"])
         reason = s["why"]
         if cls is None:
             cls = "Shared"
             for k, a in enumerate(allow["allow"]):
                 # same function and same statement; or, after a renaming of locals, same function and same written field / element
-                if a["func"] == s["func"] and (a["stmt"] == s["stmt"] or (_lhs_suffix(a["stmt"]) != "" and _lhs_suffix(a["stmt"]) == _lhs_suffix(s["stmt"]))):
+                # ... or same function and the call of the same listed mutator / parameter-writing function
+                if a["func"] == s["func"] and (a["stmt"] == s["stmt"] or (_lhs_suffix(a["stmt"]) != "" and _lhs_suffix(a["stmt"]) == _lhs_suffix(s["stmt"]))
+                                               or (a.get("kind", "").startswith("call:") and a["kind"] == s["kind"])):
                     cls, reason = "Allowed", a["reason"]
                     used.add(k)
                     break
@@ -101,11 +105,59 @@ func rebind(self *PanArr, x PanObject) {
 	elems = append(elems, x)
 }
 func (o *PanObj) AddPairs(p *map[SymHash]Pair) { (*o.Pairs)[1] = Pair{} }
+func putIfAbsent(m map[SymHash]Pair, k SymHash, v Pair) {
+	if _, ok := m[k]; !ok {
+		m[k] = v
+	}
+}
+func helperFresh(k SymHash, v Pair) *PanObj { m := map[SymHash]Pair{}; putIfAbsent(m, k, v); return &PanObj{Pairs: &m} }
+func helperShared(src *PanObj, k SymHash, v Pair) { putIfAbsent(*src.Pairs, k, v) }
+func putVia(m map[SymHash]Pair, k SymHash, v Pair) { putIfAbsent(m, k, v) }
+func viaFresh(k SymHash, v Pair) { m := map[SymHash]Pair{}; putVia(m, k, v) }
+func viaShared(src *PanObj, k SymHash, v Pair) { putVia(*src.Pairs, k, v) }
+func escaping(m map[SymHash]Pair, k SymHash, v Pair) { m[k] = v }
+var hook = escaping
+func Exported(m map[SymHash]Pair, k SymHash, v Pair) { m[k] = v }
+func throughElem(arrs []*PanArr) { arrs[0].Elems[0] = nil }
+func appendIfNew(pairs []Pair, seen []Pair, p Pair) ([]Pair, []Pair) {
+	if len(seen) > 3 {
+		return pairs, seen
+	}
+	return append(pairs, p), append(seen, p)
+}
+func passFresh(p Pair) []Pair {
+	pairs := []Pair{}
+	seen := []Pair{}
+	pairs, seen = appendIfNew(pairs, seen, p)
+	pairs = append(pairs, p)
+	return pairs
+}
+func passShared(src *PanArr, p Pair) {
+	pairs := src.Pairs
+	seen := []Pair{}
+	pairs, seen = appendIfNew(pairs, seen, p)
+	pairs = append(pairs, p)
+}
+func swapped(a []Pair, b []Pair) ([]Pair, []Pair) { return b, a }
+func passSwapped(src *PanArr, p Pair) {
+	mine := []Pair{}
+	theirs := src.Pairs
+	mine, theirs = swapped(mine, theirs)
+	mine = append(mine, p)
+}
 '''
 SELFTEST_EXPECT = {"sortInPlace": {"shared"}, "sortCopy": {"fresh"}, "unpackOnto": {"shared"}, "unpackFresh": {"fresh"},
                    "bearBad": {"shared"}, "bearBad2": {"shared"}, "kwFresh": {"fresh"}, "litShared": {"shared"},
                    "litFresh": {"fresh"}, "rev": {"shared"}, "elemWrite": {"shared"}, "rebind": {"shared"},
-                   "PanObj.AddPairs": {"receiver"}}
+                   "PanObj.AddPairs": {"receiver"},
+                   # a helper that writes through a parameter: its call sites carry the obligation (also through a second helper);
+                   # not when the function is used as a value, is exported (callers outside the scanned packages), or reaches
+                   # the destination through an element or field of the parameter
+                   "putIfAbsent": {"parameter"}, "helperFresh": {"fresh"}, "helperShared": {"shared"}, "putVia": {"parameter"},
+                   "viaFresh": {"fresh"}, "viaShared": {"shared"}, "escaping": {"shared"}, "Exported": {"shared"},
+                   "throughElem": {"shared"},
+                   # results that pass a parameter through (itself or appended to) are as fresh as the argument
+                   "appendIfNew": {"parameter"}, "passFresh": {"fresh"}, "passShared": {"shared", "fresh"}, "passSwapped": {"shared"}}
 
 
 def translator_selftest(allow):
